@@ -144,12 +144,12 @@ func simPath(p string) string {
 	p = strings.Replace(p, "W/", "/work/", 1)
 	return strings.Replace(p, "M/", "/mnt2/", 1)
 }
-func (o simOps) write(p string, d []byte)   { o.f.WriteFile(simPath(p), d) }
-func (o simOps) mkdir(p string)             { o.f.MkdirAll(simPath(p)) }
+func (o simOps) write(p string, d []byte)    { o.f.WriteFile(simPath(p), d) }
+func (o simOps) mkdir(p string)              { o.f.MkdirAll(simPath(p)) }
 func (o simOps) symlink(target, link string) { o.f.SymlinkRaw(simPath(target), simPath(link)) }
-func (o simOps) link(a, b string)           { o.f.LinkRaw(simPath(a), simPath(b)) }
-func (o simOps) root() string               { return "/work" }
-func (o simOps) root2() string              { return "/mnt2" }
+func (o simOps) link(a, b string)            { o.f.LinkRaw(simPath(a), simPath(b)) }
+func (o simOps) root() string                { return "/work" }
+func (o simOps) root2() string               { return "/mnt2" }
 
 type result struct {
 	Err       string `json:"err"`
